@@ -74,6 +74,58 @@ pub unsafe extern "C" fn sched_yield() -> c_int {
     ret(sim::raw_syscall6(libc::SYS_sched_yield, 0, 0, 0, 0, 0, 0)) as c_int
 }
 
+// ---------------------------------------------------------------------------
+// threads created by the code under test (not through the harness's pool builder) are simulated
+// threads as well: registered by their creator, scheduled like any other, joined by yielding
+// ---------------------------------------------------------------------------
+
+struct Tramp {
+    start: extern "C" fn(*mut c_void) -> *mut c_void,
+    arg: *mut c_void,
+    id: usize,
+}
+
+extern "C" fn tramp(p: *mut c_void) -> *mut c_void {
+    let t = unsafe { Box::from_raw(p as *mut Tramp) };
+    sim::thread_begin(t.id);
+    let r = (t.start)(t.arg);
+    sim::thread_end();
+    r
+}
+
+type PthreadCreate = unsafe extern "C" fn(*mut libc::pthread_t, *const libc::pthread_attr_t, extern "C" fn(*mut c_void) -> *mut c_void, *mut c_void) -> c_int;
+type PthreadJoin = unsafe extern "C" fn(libc::pthread_t, *mut *mut c_void) -> c_int;
+
+unsafe fn next_sym(name: &[u8]) -> *mut c_void {
+    libc::dlsym(libc::RTLD_NEXT, name.as_ptr() as *const c_char)
+}
+
+#[no_mangle]
+pub unsafe extern "C" fn pthread_create(t: *mut libc::pthread_t, attr: *const libc::pthread_attr_t, start: extern "C" fn(*mut c_void) -> *mut c_void, arg: *mut c_void) -> c_int {
+    let real: PthreadCreate = std::mem::transmute(next_sym(b"pthread_create\0"));
+    if sim::spawns_are_simulated() {
+        let id = sim::register_thread();
+        let boxed = Box::into_raw(Box::new(Tramp { start, arg, id }));
+        let r = real(t, attr, tramp, boxed as *mut c_void);
+        if r == 0 {
+            sim::thread_spawned(id);
+        } else {
+            drop(Box::from_raw(boxed));
+            sim::thread_never_started(id);
+        }
+        return r;
+    }
+    real(t, attr, start, arg)
+}
+
+#[no_mangle]
+pub unsafe extern "C" fn pthread_join(th: libc::pthread_t, ret_val: *mut *mut c_void) -> c_int {
+    let real: PthreadJoin = std::mem::transmute(next_sym(b"pthread_join\0"));
+    // a simulated thread joining a simulated thread: yield until the simulator has seen it finish
+    sim::wait_finished(th);
+    real(th, ret_val)
+}
+
 /// sleeping is simulated: the clock jumps by the requested duration and the thread yields
 #[no_mangle]
 pub unsafe extern "C" fn nanosleep(req: *const libc::timespec, rem: *mut libc::timespec) -> c_int {
